@@ -9,6 +9,7 @@ The source-derived table `RsjModel/GcTraceTable.lean` is regenerated first (tool
 """
 import itertools
 import os
+import resource
 import sys
 
 import vlib
@@ -356,7 +357,7 @@ class ProgGen:
         if ty == "O":
             return r.choice(["{}", "{ a: 1 }", "mk(%s)" % self.small(), "cyc", "{ a: 1, b: self.a }"])
         if ty == "F":
-            return r.choice(["function(x) x + 1", "function(x) x * 2", "fib", "sumTo", "function(x) x"])
+            return r.choice(["function(x) x + 1", "function(x) x * 2", "function(x) fib(x % 10)", "sumTo", "function(x) x"])
         return "null"
 
     def gen_N(self, d, env):
@@ -378,7 +379,7 @@ class ProgGen:
         if k == 6:
             return "fib(%d)" % r.randrange(0, 11)
         if k == 7:
-            return "sumTo(%s %% 40)" % g("N")
+            return "sumTo(std.floor(%s) %% 40)" % g("N")
         if k == 8:
             return "std.foldl(function(a, b) a + b, %s, 0)" % g("AN")
         if k == 9:
@@ -474,11 +475,11 @@ class ProgGen:
         if k == 3:
             return "std.sort(%s)" % g("AN")
         if k == 4:
-            return "(%s + %s)" % (g("AN"), g("AN"))
+            return "(%s + %s)[:40]" % (g("AN"), g("AN"))
         if k == 5:
             return "std.filter(function(%s) %s, %s)" % (x, self.gen("B", d - 1, envx), g("AN"))
         if k == 6:
-            return "std.makeArray(%s %% 12, function(%s) %s)" % (g("N"), x, self.gen("N", d - 1, envx))
+            return "std.makeArray(std.abs(std.floor(%s)) %% 12, function(%s) %s)" % (g("N"), x, self.gen("N", d - 1, envx))
         if k == 7:
             return "std.reverse(%s)" % g("AN")
         if k == 8:
@@ -489,7 +490,7 @@ class ProgGen:
             return "(%s)[%s:%s]" % (g("AN"), self.small(), self.small())
         if k == 11:
             y = self.fresh()
-            return "[%s + %s for %s in %s for %s in %s]" % (x, y, x, g("AN"), y, g("AN"))
+            return "[%s + %s for %s in (%s)[:5] for %s in (%s)[:5]]" % (x, y, x, g("AN"), y, g("AN"))
         if k == 12:
             return "std.flattenArrays([%s, %s])" % (g("AN"), g("AN"))
         if k == 13:
@@ -541,7 +542,8 @@ class ProgGen:
         if k == 9:
             return "tree(%d) + { a: self.v, c: [self.l.v] }" % r.randrange(1, 5)
         if k == 10:
-            return "std.prune(%s + { n: null, e: {}, a: %s })" % (g("O"), g("N"))
+            # (not on arbitrary objects: std.prune of a cyclic object does not terminate in rsjsonnet)
+            return "std.prune(mk(%s) + { n: null, e: {}, a: %s })" % (g("N"), g("N"))
         if k == 11:
             return "{ a: %s, assert self.a >= %s : %s, c: [1] }" % (g("N"), g("N"), g("S"))
         if k == 12:
@@ -572,7 +574,7 @@ class ProgGen:
         r = self.rng
         self.uid = 0
         ty = r.choice(["N", "S", "AN", "O", "O", "AN", "AS", "B"])
-        d = r.choice([2, 3, 3, 4, 4, 5])
+        d = r.choice([3, 4, 4, 5, 5, 6])
         k = r.random()
         body = self.gen(ty, d, [])
         opts = {}
@@ -580,13 +582,15 @@ class ProgGen:
             # deep recursion against a small stack limit
             body = "[%s, sumTo(%d)]" % (body, r.choice([50, 300, 2000]))
             opts["max_stack"] = r.choice([20, 60, 250])
-        elif k < 0.10:
+        elif k < 0.085:
             # enough objects for the default heuristic (> 1000 objects, doubled since last gc)
-            n = r.choice([400, 900, 1500])
+            n = r.choice([400, 1100])
             body = "local big = std.map(function(i) mk(i), std.range(1, %d)); [std.foldl(function(a, o) a + o.b, big, 0), %s, std.length(std.sort([o.e.q for o in big]))]" % (n, body)
-        elif k < 0.14:
-            body = "local big = std.foldl(function(acc, i) acc + { ['f' + (i %% 7)]+: [i], n+: 1 }, std.range(1, %d), { n: 0 }); [big.n, std.length(big.f3), %s]" % (r.choice([300, 700]), body)
-        elif k < 0.17:
+            opts["heavy"] = 1
+        elif k < 0.11:
+            body = "local big = std.foldl(function(acc, i) acc + { ['f' + (i %% 7)]+: [i], n+: 1 }, std.range(1, %d), { n: 0 }); [big.n, std.length(big.f3), %s]" % (r.choice([100, 250]), body)
+            opts["heavy"] = 1
+        elif k < 0.15:
             body = "[%s, error %s]" % (body, self.gen("S", 2, []))
         return PRELUDE + body, opts
 
@@ -596,14 +600,30 @@ CORPUS_PROGRAMS = [
     ("local f(n) = if n == 0 then { v: 0 } else f(n - 1) + { v+: n, ['k' + n]: super.v }; f(30)", {}),
     ("local f(n) = n + f(n + 1); f(0)", {"max_stack": 50}),
     ("local o = { a: [1, 2, 3], b: std.map(function(x) x * $.c, self.a), c: 2 }; std.manifestJsonEx(o + { a+: [4] }, '  ')", {}),
-    ("std.foldl(function(a, b) a + [std.length(a) + b], std.range(1, 600), [])[599]", {}),
-    ("local t(d) = if d == 0 then { v: 1 } else { l: t(d - 1), r: t(d - 1), v: self.l.v + self.r.v }; t(9).v", {}),
+    ("std.foldl(function(a, b) a + [std.length(a) + b], std.range(1, 600), [])[599]", {"heavy": 1}),
+    ("local t(d) = if d == 0 then { v: 1 } else { l: t(d - 1), r: t(d - 1), v: self.l.v + self.r.v }; t(9).v", {"heavy": 1}),
     ("[std.trace('t' + i, i) for i in std.range(1, 5)] + [error 'boom ' + std.toString({ a: 1 })]", {}),
-    ("std.sort(std.makeArray(300, function(i) (i * 7919) % 1000))[:5]", {}),
-    ("std.length(std.makeArray(1500, function(i) { a: i, b: [self.a] })) + std.length([{ x: i } for i in std.range(1, 1200)])", {}),
+    ("std.sort(std.makeArray(300, function(i) (i * 7919) % 1000))[:5]", {"heavy": 1}),
+    ("std.length(std.makeArray(1500, function(i) { a: i, b: [self.a] })) + std.length([{ x: i } for i in std.range(1, 1200)])", {"heavy": 1}),
+    ("local big = std.map(function(i) { a: i, b: [self.a, i], c: { d: $.a } }, std.range(1, 1500)); std.foldl(function(acc, o) acc + o.b[0] + o.c.d, big, 0)", {"heavy": 1}),
 ]
 
 # ----------------------------------------------------------------------------------------------
+
+
+class MemLimit:
+    """Address-space limit for child processes started inside the block (a generated program that
+    runs away must not take the machine down); restored afterwards (lake/lean need more)."""
+
+    def __init__(self, gib):
+        self.lim = gib << 30
+
+    def __enter__(self):
+        self.old = resource.getrlimit(resource.RLIMIT_AS)
+        resource.setrlimit(resource.RLIMIT_AS, (self.lim, self.old[1]))
+
+    def __exit__(self, *a):
+        resource.setrlimit(resource.RLIMIT_AS, self.old)
 
 
 def regenerate_table():
@@ -617,7 +637,12 @@ def regenerate_table():
         raise vlib.BrokenTie("extract_gctrace: cannot derive the GcTrace table from /repo sources", str(e))
 
 
-def schedules(rng):
+def schedules(rng, heavy):
+    """Collection periods (0 = never, None = the default heuristic). Programs that build > 1000
+    objects get sparser schedules (a collection after every step costs steps x heap size)."""
+    if heavy:
+        extra = rng.sample([13, 29, 211, 1000], 2)
+        return [("gc", "0"), (None, None), ("gc", "7"), ("gc", "50"), ("gc", "101")] + [("gc", str(p)) for p in extra]
     extra = rng.sample([4, 5, 11, 13, 50, 101, 1000], 2)
     return [("gc", "0"), ("gc", "1"), ("gc", "2"), ("gc", "3"), ("gc", "7"), (None, None)] + [("gc", str(p)) for p in extra]
 
@@ -675,21 +700,25 @@ def run(rep):
     # ---------------- (c) schedule invisibility ----------------
     gen = ProgGen(rng)
     progs = list(CORPUS_PROGRAMS)
-    nprog = 260 if not thorough else 6000
+    nprog = 500 if not thorough else 12000
     for _ in range(nprog):
         progs.append(gen.program())
     plines = []
     index = []
     for pi, (src, opts) in enumerate(progs):
-        for (k, v) in schedules(rng):
-            o = dict(opts)
+        for (k, v) in schedules(rng, "heavy" in opts):
+            o = {kk: vv for kk, vv in opts.items() if kk != "heavy"}
             o["tracedepth"] = 1
             o["traces"] = 1
             if k:
                 o[k] = v
             plines.append(vlib.eval_line(src, **o))
             index.append((pi, v if k else "default"))
-    pout = vlib.impl(plines, timeout=3000)
+    with MemLimit(6):
+        pout = vlib.impl(plines, timeout=900)
+    if any(a.startswith("crash rc=timeout") for a in pout):
+        raise vlib.BrokenTie("schedule sweep: a generated program did not finish within the time limit (generator bug, not a verdict)",
+                             next(l for l, a in zip(plines, pout) if a.startswith("crash rc=timeout"))[:3000])
     by_prog = {}
     for (pi, sched), line, ans in zip(index, plines, pout):
         by_prog.setdefault(pi, []).append((sched, line, ans))
@@ -725,7 +754,8 @@ def run(rep):
         h = vlib.hx(src)
         ms = ["maxstack:%d" % opts["max_stack"]] if "max_stack" in opts else []
         hlines.append(" ".join(["hist", "objs"] + ms + ["load:" + h, "eval:0", "objs", "evalv:0", "load:" + h, "eval:1", "drop:0", "gc", "eval:1", "drop:1", "objs"]))
-    hout = vlib.impl(hlines, timeout=3000)
+    with MemLimit(6):
+        hout = vlib.impl(hlines, timeout=900)
     for line, ans in zip(hlines, hout):
         rep.count("H:" + line, True)
         rep.bump("hist_runs")
@@ -746,7 +776,9 @@ def run(rep):
                           {"op": line, "impl": ans[:1000]})
         reqs = line.split(" ")[1:]
         evals = [p for q, p in zip(reqs, parts) if q.startswith("eval:")]
-        if len(parts) == len(reqs) and len(evals) == 3 and not (evals[0] == evals[1] == evals[2]):
+        # (re-evaluating a thunk whose first evaluation FAILED is a different question — an object whose
+        #  assert failed is not re-checked — so only successful results are compared)
+        if len(parts) == len(reqs) and len(evals) == 3 and evals[0].startswith("ok_") and not (evals[0] == evals[1] == evals[2]):
             rep.violation("hist-repeat:" + line, "re-evaluation after an explicit collection differs: %r" % ([e[:60] for e in evals],),
                           {"op": line, "impl": ans[:1000]})
 
